@@ -126,15 +126,30 @@ void
 mat_raw_keys(uint64_t key_seed, uint8_t rawc[64], uint8_t rawa[160])
 {
         // reserved seeds give structured keys (used by C19): 0x5EED0000 all zero, 0x5EED0001 all ones,
-        // 0x5EED1000 + n: only bit n set (in both the cipher and the authentication key)
+        // 0x5EED1000 + n: only bit n set (in both the cipher and the authentication key), 0x5EED2000.. keys with equal parts
         if ((key_seed >> 16) == 0x5EED) {
                 const unsigned k = (unsigned) (key_seed & 0xFFFF);
                 memset(rawc, k == 1 ? 0xFF : 0, 64);
                 memset(rawa, k == 1 ? 0xFF : 0, 160);
-                if (k >= 0x1000) {
+                if (k >= 0x1000 && k < 0x2000) {
                         const unsigned n = (k - 0x1000) & 127;
                         rawc[n / 8] = (uint8_t) (1u << (n % 8));
                         rawa[n / 8] = (uint8_t) (1u << (n % 8));
+                } else if (k >= 0x2000 && k < 0x5000) {
+                        // keys with equal parts (what a key-dependent short cut would test for): 0x2000+v every 8-byte part
+                        // equal (K1=K2=K3), 0x3000+v first two parts equal (K1=K2), 0x4000+v second and third equal (K2=K3)
+                        uint8_t part[3][8];
+                        fill_bytes(part[0], 8, mix64(key_seed, 0xE1));
+                        fill_bytes(part[1], 8, mix64(key_seed, 0xE2));
+                        fill_bytes(part[2], 8, mix64(key_seed, 0xE3));
+                        const unsigned cls = k >> 12;
+                        for (unsigned i = 0; i < 64; i++) {
+                                const unsigned q = (i / 8) % 3;
+                                const unsigned src = cls == 2 ? 0 : cls == 3 ? (q == 1 ? 0 : q) : (q == 2 ? 1 : q);
+                                rawc[i] = part[src][i % 8];
+                        }
+                        for (unsigned i = 0; i < 160; i++)
+                                rawa[i] = rawc[i % 24];
                 }
                 return;
         }
@@ -615,7 +630,10 @@ mat_collect(const MatJob &mj, int status, JobOut &o)
         // bytes before the FCS) are outside the documented assumptions; the repo's own cross-validation
         // does not check their CRC either. The CRC value (tag and the copy written into the frame) is
         // therefore not compared for them; everything else about such jobs still is.
-        if (mj.spec.hash == IMB_AUTH_DOCSIS_CRC32 && mj.spec.h_len < 14) {
+        if (mj.spec.hash == IMB_AUTH_DOCSIS_CRC32 && mj.spec.h_len == 0 && mj.spec.c_len) {
+                // CRC switched off (hash length zero): no CRC value is defined, the ciphered range is compared as usual
+                std::fill(o.tag.begin(), o.tag.end(), 0);
+        } else if (mj.spec.hash == IMB_AUTH_DOCSIS_CRC32 && mj.spec.h_len < 14) {
                 std::fill(o.tag.begin(), o.tag.end(), 0);
                 for (uint32_t i = mj.spec.h_off + mj.spec.h_len; i < mj.spec.h_off + mj.spec.h_len + 4 && i < o.src_post.size(); i++)
                         o.src_post[i] = 0;
